@@ -1,7 +1,8 @@
 (* Properties_C18.v — C18: formatted output follows the C rules, extended to MPIR types.
    Statements only. *)
 From Coq Require Import ZArith List Bool.
-From Mpir Require Import Word RadixDefs PrintfDefs PrintfProofs.
+From Mpir Require Import Word RadixDefs PrintfDefs PrintfProofs DoscanDefs DoscanProofs.
+From MpirGen Require Import Gen_Consts.
 Import ListNotations.
 Local Open Scope Z_scope.
 
@@ -45,6 +46,56 @@ Theorem C18_snprintf_bounded : forall size chunks, 0 <= size ->
   /\ ret = len (concat chunks).
 Proof. exact snprintf_bounded. Qed.
 Print Assumptions C18_snprintf_bounded.
+
+
+(* ---- the input side: scanf/doscan.c AS CODED (DoscanDefs.v: the directive loop of __gmp_doscan and the field reader gmpscan,
+   on the string functions of sscanffuns.c), the executable model of the correspondence ---- *)
+
+(* field width: after the skipped white space the reader takes a prefix of the input no longer than the width (no width: at most
+   INT_MAX - 1 bytes); it either meets the end of input, or rejects the field, or the bytes taken are sign, base indicator and
+   digits of the value it stores, and the return value is their number *)
+Theorem C18_scan_field_width_Z : forall pbase pw ignore s, pbase_ok pbase -> 0 <= pw -> bytes s ->
+  exists ret cons s' v, gmpscan digit_value_tab 90 pbase pw ignore s = (ret, s', v)
+    /\ s = cons ++ s' /\ len cons <= eff_width pw
+    /\ ((ret = -2 /\ cons = [] /\ v = None /\ fst (sget s) = -1)
+        \/ (ret = -1 /\ v = None /\ fst (sget s) <> -1)
+        \/ (ret = len cons /\ 0 < ret
+            /\ exists z, number_denotes pbase cons z /\ v = if ignore then None else Some (SVZ z))).
+Proof. exact gmpscan_width_Z. Qed.
+Print Assumptions C18_scan_field_width_Z.
+
+Theorem C18_scan_field_width_Q : forall pbase pw ignore s, pbase_ok pbase -> 0 <= pw -> bytes s ->
+  exists ret cons s' v, gmpscan digit_value_tab 81 pbase pw ignore s = (ret, s', v)
+    /\ s = cons ++ s' /\ len cons <= eff_width pw
+    /\ ((ret = -2 /\ cons = [] /\ fst (sget s) = -1) \/ ret = -1 \/ ret = len cons).
+Proof. exact gmpscan_width_Q. Qed.
+Print Assumptions C18_scan_field_width_Q.
+
+(* the C-style count: for EVERY format and input (inside the modelled directives) the return value is the number of assigned
+   fields (suppressed fields and %n do not count), and it is -1 exactly when the input ran out - only white space left - before
+   anything was assigned *)
+Theorem C18_scan_count : forall fmt input,
+  let r := doscan_run digit_value_tab fmt input in
+  d_stop r <> St_unsupported -> d_stop r <> St_fuel ->
+  (d_ret r = -1 <-> (d_stop r = St_eof /\ nassigned (d_stores r) = 0))
+  /\ (d_ret r <> -1 -> d_ret r = nassigned (d_stores r))
+  /\ (d_stop r = St_eof -> exhausted (d_rest r)).
+Proof. exact doscan_count. Qed.
+Print Assumptions C18_scan_count.
+
+(* round trip: what the printing model prints for ANY integer in the styles d, x, X, o, #x, #X, #o is read back by the matching
+   conversion (d, x/X, o, and i for the # styles and for d) as the same integer, one field, exactly the printed bytes consumed -
+   provided the next input byte is not a digit of the base and, when a zero is read with %Zi, not an x (which would make "0x" a
+   base indicator without digits) *)
+Theorem C18_scan_roundtrip_Z : forall hash pconv sconv z rest,
+  In (hash, pconv, sconv) styles -> bytes rest ->
+  let printed := printf_Z (if hash then [35] else []) [] pconv z in
+  digit_ok (Z.abs (conv_base pconv)) (fst (sget rest)) = false ->
+  (sconv = 105 -> z = 0 -> fst (sget rest) <> 120 /\ fst (sget rest) <> 88) ->
+  len printed < 2147483646 ->
+  doscan digit_value_tab [37; 90; sconv] (printed ++ rest) = (1, [SVZ z], len printed).
+Proof. exact roundtrip_Z. Qed.
+Print Assumptions C18_scan_roundtrip_Z.
 
 Example C18_nonvacuous :
   printf_Z [45; 48; 43] [] 105 (-42) = [45; 52; 50]
